@@ -72,6 +72,32 @@ def normalisation_sensitive() -> list[str]:
     return out
 
 
+def case_related() -> list[str]:
+    """Non-ASCII code points that a case mapping (upper, lower, casefold, title, swapcase) turns into
+    text containing an ASCII letter or digit (KELVIN SIGN, dotted / dotless i, long s, sharp s, the
+    ligatures …): what a case-insensitive match or a case-mapping step confuses with ASCII.  Few enough
+    (20 under Unicode 15) to be swept completely."""
+    out = []
+    for c in range(0x80, 0x110000):
+        if 0xD800 <= c <= 0xDFFF:
+            continue
+        ch = chr(c)
+        if any(any(x.isascii() and x.isalnum() for x in f(ch))
+               for f in (str.upper, str.lower, str.casefold, str.title, str.swapcase)):
+            out.append(ch)
+    return out
+
+
+_CASE_RELATED = None
+
+
+def CASE_RELATED() -> list[str]:
+    global _CASE_RELATED
+    if _CASE_RELATED is None:
+        _CASE_RELATED = case_related()
+    return _CASE_RELATED
+
+
 def wide_alphabet() -> list[str]:
     digits, spaces, to_ascii = U()
     conf = [chr(c) for c in list(range(0xFF10, 0xFF1A)) + list(range(0xFF21, 0xFF3B)) +
